@@ -173,6 +173,8 @@ func inputClass(t tree, rn run, deepMarker bool) string {
 		return "start-before-prefix"
 	case strings.Contains(rn.Prefix, "/") && (rn.Start != "" || rn.Style == "lastkey"):
 		return "fullkey-marker-under-dir-prefix"
+	case rn.Start != "" && !strings.HasPrefix(rn.Start, rn.Prefix):
+		return "start-after-prefix-range"
 	case startIsDir:
 		return "start-is-directory"
 	case rn.Delim == "/" && strings.Contains(rn.Start, "/"):
@@ -454,7 +456,7 @@ func (w *worker) paginate(t tree, rn run) int {
 }
 
 // runsFor enumerates the runs of one tree (pure function of tree and rng state).
-func runsFor(t tree, uplId string, rng *rand.Rand, nStart int) []run {
+func runsFor(t tree, uplId string, rng *rand.Rand, nStart int, lean bool) []run {
 	pset := map[string]bool{"": true, ".uploads/": true, ".uploads": true, "e/": true, "u/": true, "zz": true}
 	for _, k := range t.Keys {
 		for i := 1; i <= len(k); i++ {
@@ -478,14 +480,22 @@ func runsFor(t tree, uplId string, rng *rand.Rand, nStart int) []run {
 				if m > n+1 {
 					continue
 				}
-				out = append(out, run{Api: "v1", Style: "nextmarker", Prefix: p, Delim: d, Max: m})
-				out = append(out, run{Api: "v2", Style: "token", Prefix: p, Delim: d, Max: m})
-				if d == "" {
+				// lean (thorough tier, all 1024 trees): every style at max-keys 1, then the
+				// styles alternate over max-keys 2..4 so that the request count stays bounded
+				if !lean || m == 1 || m%2 == 0 {
+					out = append(out, run{Api: "v1", Style: "nextmarker", Prefix: p, Delim: d, Max: m})
+				}
+				if !lean || m == 1 || m%2 == 1 {
+					out = append(out, run{Api: "v2", Style: "token", Prefix: p, Delim: d, Max: m})
+				}
+				if d == "" && (!lean || m <= 2) {
 					out = append(out, run{Api: "v1", Style: "lastkey", Prefix: p, Delim: d, Max: m})
 				}
 			}
 			out = append(out, run{Api: "v1", Style: "nextmarker", Prefix: p, Delim: d, Max: 1000})
-			out = append(out, run{Api: "v2", Style: "token", Prefix: p, Delim: d, Max: 1000})
+			if !lean || d == "/" {
+				out = append(out, run{Api: "v2", Style: "token", Prefix: p, Delim: d, Max: 1000})
+			}
 		}
 	}
 	// explicit start positions (marker / start-after chosen by the client)
@@ -516,7 +526,7 @@ func (w *worker) doTree(t tree, nStart int) {
 	}
 	r.Count("trees", 1)
 	rng := r.SubRng(fmt.Sprintf("c27-tree-%d", t.Mask))
-	for _, rn := range runsFor(t, w.uplId, rng, nStart) {
+	for _, rn := range runsFor(t, w.uplId, rng, nStart, w.r.Thorough()) {
 		pages := w.paginate(t, rn)
 		if pages > 1 && len(t.Keys) > 0 {
 			r.Nontrivial(runKey(t, rn))
@@ -613,7 +623,7 @@ func main() {
 			masks = append(masks, m)
 		}
 	}
-	nStart := r.Pick(24, 24)
+	nStart := r.Pick(24, 10)
 	jobs := make(chan int, len(masks))
 	for _, m := range masks {
 		jobs <- m
